@@ -510,6 +510,9 @@ pub fn check(case: &Case) -> CaseResult {
                 r.nontrivial();
             }
             let [(p, _), (g, gn), _] = distinct_tags(tags.0, tags.1, 0);
+            // the caller may name a known tag through the catch-all variant: Tag::Other("Album") is
+            // equal to Tag::Album and must behave the same
+            let g = if (tags.0 as usize + tags.1 as usize) % 3 == 0 { Tag::Other(gn.clone().into_boxed_str()) } else { g };
             done!("list_grouped_1", c::List::new(p).group_by([g]).response(frame), |v: mpd_client::responses::List<1>| {
                 let got: Vec<(String, [String; 1])> = v.grouped_values().map(|(x, g)| (x.to_string(), [g[0].to_string()])).collect();
                 let want: Vec<(String, [String; 1])> =
@@ -527,7 +530,10 @@ pub fn check(case: &Case) -> CaseResult {
             if groups.len() >= 2 || groups.iter().any(|(_, i)| i.len() >= 2) {
                 r.nontrivial();
             }
-            let [(p, _), (inner, _), (outer, _)] = distinct_tags(tags.0, tags.1, tags.2);
+            let [(p, _), (inner, inner_name), (outer, outer_name)] = distinct_tags(tags.0, tags.1, tags.2);
+            let sel = (tags.0 as usize + tags.1 as usize + tags.2 as usize) % 4;
+            let inner = if sel == 1 || sel == 3 { Tag::Other(inner_name.clone().into_boxed_str()) } else { inner };
+            let outer = if sel == 2 || sel == 3 { Tag::Other(outer_name.clone().into_boxed_str()) } else { outer };
             let order = if *inner_first { [inner, outer] } else { [outer, inner] };
             done!("list_grouped_2", c::List::new(p).group_by(order).response(frame), |v: mpd_client::responses::List<2>| {
                 let got: Vec<(String, [String; 2])> =
